@@ -23,7 +23,8 @@ build_mc() {
   gen_overlay
   cd "$HERE/harness" || exit 2
   # background runs on a snapshot (vp run --with-repo) point the module at that snapshot
-  if [ "$REPO" != /repo ]; then go mod edit -replace "github.com/jrhy/mast=$REPO"; fi
+  # always: the module under test is whatever $REPO says, not what the committed go.mod happens to hold
+  go mod edit -replace "github.com/jrhy/mast=$REPO"
   if [ ! -f go.sum ] || [ "$REPO/go.sum" -nt go.sum ]; then cat "$REPO/go.sum" go.sum.extra 2>/dev/null | sort -u > go.sum; fi
   if go build -overlay "$BUILD/overlay.json" -tags verif -o "$BUILD/mc" ./cmd/mc 2> "$BUILD/build.err"; then
     return 0
@@ -72,7 +73,7 @@ build_q() {
   gen_overlay
   command -v go1.26.8 >/dev/null || return 1
   ( cd "$HERE/harnessq" || exit 1
-    [ "$REPO" != /repo ] && go1.26.8 mod edit -replace "github.com/jrhy/mast=$REPO"
+    go1.26.8 mod edit -replace "github.com/jrhy/mast=$REPO"
     go1.26.8 test -c -overlay "$BUILD/overlay.json" -tags verif -vet=off -o "$BUILD/q.test" . ) 2> "$BUILD/q.err" || { echo "NOTE: engine Q does not build:"; head -3 "$BUILD/q.err"; rm -f "$BUILD/q.test"; return 1; }
 }
 
